@@ -213,7 +213,11 @@ impl RefRange {
         let (upper, _) = add_mod(self.low, self.range, self.s);
         let upper_word = upper >> (self.s - self.w);
         if upper_word == point_word {
-            digits.push(0);
+            // documented sealing rule, step 4 (notes/range-coding.md): State::BITS / Word::BITS - 1
+            // zero words, so that the value a decoder reads stays below `upper` whatever follows
+            for _ in 1..self.s / self.w {
+                digits.push(0);
+            }
         }
         digits
     }
